@@ -587,8 +587,9 @@ static int history_of(size_t s, op_t *out, int cap)
     return n;
 }
 
-static void report(size_t from, op_t op, const mstate *before, const mismatch *mm)
+static void report(size_t from, op_t op, const mstate *before, const mismatch *mm_in)
 {
+    mismatch mm_copy = *mm_in, *mm = &mm_copy;
     static op_t h[4100];
     int n = history_of(from, h, 4096);
     h[n] = op;
